@@ -17,6 +17,9 @@ ToSet(sq) == {sq[i] : i \in 1..Len(sq)}
 Ctx(e, len) == [quads |-> {<<q[1], q[2], q[3], q[4]>> : q \in ToSet(e.quads)}, graphs |-> ToSet(e.graphs),
                 kind |-> e.kind, num |-> e.num, rank |-> e.rank, canon |-> ToSet(e.canon), lenient |-> len]
 
+Relaxations == {{"unbound"}, {"types"}, {"concat"}, {"avg"}, {"order"}, {"unbound", "types", "concat", "avg", "order"}, {"sideways"},
+                {"sideways", "unbound", "types", "concat", "avg", "order"}}
+
 Judge(e) ==
   LET X == Ctx(e, {}) IN
   IF e.err # "" THEN "error"
@@ -32,6 +35,9 @@ Judge(e) ==
   ELSE IF Accept(Ctx(e, {"unbound", "types", "concat", "avg", "order"}), e.q, e.cols, e.rows) THEN "lenient:several"
   ELSE IF Accept(Ctx(e, {"sideways"}), e.q, e.cols, e.rows) THEN "lenient:sideways"
   ELSE IF Accept(Ctx(e, {"sideways", "unbound", "types", "concat", "avg", "order"}), e.q, e.cols, e.rows) THEN "lenient:sideways+"
+  \* not explained by any reading - unless, under one of the relaxed readings, a subquery cut (ORDER BY + LIMIT) is not definite:
+  \* then which rows survive the cut is the engine's choice and that reading cannot be decided (a skip, never an alarm)
+  ELSE IF \E L \in Relaxations : ~AllCutsDefinite(Ctx(e, L), e.q.p, ViewOf(Ctx(e, L), e.q), "") THEN "skip-cut"
   ELSE "wrong"
 
 Step ==
